@@ -797,11 +797,8 @@ class CodeGen {
             value = offset - static_cast<int>(size);
           }
         } else {
-          if (labelValue & 0x3) {
-            throw Error(directive->getLocation(),
-                        "absolute reference to label " + instrLabel->getLabel() +
-                        " which is not word aligned");
-          }
+          // The operand is a word address (alignment is checked below, once
+          // the layout is final).
           value = labelValue >> 2;
           if (size < operandSize(value)) {
             size = operandSize(value);
@@ -810,6 +807,21 @@ class CodeGen {
         if (instrLabel->setLabelValue(value, size)) {
           changed = true;
         }
+      }
+    }
+    // An absolute reference holds a word address, so its label must be on a
+    // word boundary. This is judged on the final layout, since labels move
+    // while encodings are being extended.
+    for (auto &directive : program) {
+      if (!directive->operandIsLabel()) {
+        continue;
+      }
+      auto instrLabel = dynamic_cast<InstrLabel*>(directive.get());
+      if (!instrLabel->isRelative() &&
+          (labelMap[instrLabel->getLabel()]->getValue() & 0x3)) {
+        throw Error(directive->getLocation(),
+                    "absolute reference to label " + instrLabel->getLabel() +
+                    " which is not word aligned");
       }
     }
   }
